@@ -60,7 +60,7 @@ PullStep(e) ==
       es == PullEnds(PP, st) \cap SeqRange(e.cands)
   IN [F |-> F1, ends |-> es,
       err |-> IF e.fc # <<>> /\ ~(PP.algo = "VHCT" /\ OnlyTauChanges(e.fc)) THEN "stats.pull-mutates"
-              ELSE IF PP.algo = "VHCT" /\ ~(\A c \in Cells(T) \ {1} : TauVClose(st.tau[c], TauVEst(PP, st, c, Epoch(iter)))) THEN "grow.threshold-formula"   \* C06: tau scaled by the variance term, recomputed at every pull
+              ELSE IF PP.algo = "VHCT" /\ ~(\A c \in Cells(T) \ {1} : TauVClose(st.tau[c], TauVEst(PP, st, c, Epoch(iter)), TauVX(PP, st, c))) THEN "grow.threshold-formula"   \* C06: tau scaled by the variance term, recomputed at every pull
               ELSE IF es = {} THEN "pull.not-optimistic"         \* C05: returned point is not the representative of an optimistic end cell
               ELSE "ok"]
 
